@@ -93,6 +93,20 @@ func runTree(ops []string) string {
 				}
 				return strconv.Itoa(v)
 			}))
+		case f[0] == "u" && len(f) == 3:
+			k, e1 := strconv.Atoi(f[1])
+			v, e2 := strconv.ParseUint(f[2], 10, 62)
+			if e1 != nil || e2 != nil {
+				return "bad-op"
+			}
+			obs = append(obs, guard(func() string {
+				p := t.GetPtr(k)
+				if p == nil {
+					return "0"
+				}
+				*p = int(v)
+				return "1"
+			}))
 		case op == "e":
 			obs = append(obs, guard(func() string { return b01(t.Empty()) }))
 		case op == "f":
@@ -163,6 +177,13 @@ func runCirc(ops []string) string {
 				}
 				return strconv.Itoa(v)
 			}))
+		case f[0] == "x" && len(f) == 3:
+			p, e1 := strconv.Atoi(f[1])
+			v, e2 := strconv.ParseUint(f[2], 10, 62)
+			if e1 != nil || e2 != nil {
+				return "bad-op"
+			}
+			obs = append(obs, guard(func() string { *s.IndexRef(p) = int(v); return "." }))
 		case f[0] == "r" && len(f) == 2:
 			n, e1 := strconv.Atoi(f[1])
 			if e1 != nil || n > 1<<24 {
